@@ -71,7 +71,9 @@ Record pod := mkPod {
 
 Record pdb := mkPdb {
   b_ns : string; b_name : string;
-  b_sel : option smap;                  (* nil selector selects nothing, {} everything; matchLabels only *)
+  b_sel : option (smap * list (string * string * list string));
+                                        (* Spec.Selector: None = nil (selects nothing); Some (matchLabels, matchExpressions
+                                           as (key, operator, values)); both empty = {} selects every pod of the namespace *)
   b_allowed : Z;                        (* Status.DisruptionsAllowed *)
   b_always : bool }.                    (* UnhealthyPodEvictionPolicy = AlwaysAllow *)
 
@@ -247,10 +249,22 @@ Definition is_disruptable (now : Z) (p : pod) : bool := negb (is_active p) || ne
 Definition is_evictable (now : Z) (p : pod) : bool :=
   is_active p && negb (tolerates p) && negb (owned_by_node p) && negb (dnd_active now p).
 
-Definition sel_matches (sel : option smap) (ls : smap) : bool :=
+(* labels.Requirement.Matches, for the selector LabelSelectorAsSelector builds *)
+Definition req_matches (ls : smap) (r : string * string * list string) : bool :=
+  let '(k, op, vs) := r in
+  match lookup k ls with
+  | Some v =>
+      if String.eqb op "In" then existsb (String.eqb v) vs
+      else if String.eqb op "NotIn" then negb (existsb (String.eqb v) vs)
+      else String.eqb op "Exists"                      (* DoesNotExist: false *)
+  | None => String.eqb op "NotIn" || String.eqb op "DoesNotExist"
+  end.
+Definition sel_matches (sel : option (smap * list (string * string * list string))) (ls : smap) : bool :=
   match sel with
   | None => false
-  | Some kvs => forallb (fun kv => match lookup (fst kv) ls with Some v => String.eqb v (snd kv) | None => false end) kvs
+  | Some (kvs, reqs) =>
+      forallb (fun kv => match lookup (fst kv) ls with Some v => String.eqb v (snd kv) | None => false end) kvs
+      && forallb (req_matches ls) reqs
   end.
 Definition pdb_matches (p : pod) (b : pdb) : bool := String.eqb (b_ns b) (p_ns p) && sel_matches (b_sel b) (p_labels p).
 Definition ready_false (p : pod) : bool :=
